@@ -210,6 +210,9 @@ fn small_poly(n: usize) -> BoxedStrategy<Vec<i32>> {
 
 impl Sub for Babai {
     type Case = BabaiCase;
+    fn restrictable(&self) -> bool {
+        true
+    }
     fn name(&self) -> &'static str {
         "babai_reduce"
     }
@@ -232,6 +235,9 @@ pub struct BabaiLarge;
 
 impl Sub for BabaiLarge {
     type Case = BabaiCase;
+    fn restrictable(&self) -> bool {
+        true
+    }
     fn name(&self) -> &'static str {
         "babai_reduce_large_n"
     }
@@ -459,6 +465,9 @@ pub struct BabaiSequence;
 
 impl Sub for BabaiSequence {
     type Case = SeqCase;
+    fn restrictable(&self) -> bool {
+        true
+    }
     fn name(&self) -> &'static str {
         "babai_same_basis_sequence"
     }
